@@ -507,6 +507,83 @@ impl<K: DomKey> FromIterator<K> for HashSet<K> {
     }
 }
 
+/// `HashSet<&Key>` look-alike for `HashSet::<_>::from_iter(slice_of_keys)` + `contains(&key)`.
+#[derive(Clone, Debug)]
+pub struct RefSet<T> {
+    present: [bool; DOM],
+    _t: PhantomData<T>,
+}
+
+impl<'a> FromIterator<&'a u64> for RefSet<&'a u64> {
+    fn from_iter<I: IntoIterator<Item = &'a u64>>(iter: I) -> Self {
+        let mut s = RefSet { present: [false; DOM], _t: PhantomData };
+        for k in iter {
+            let i = index_of(k);
+            let mut j = 0;
+            while j < DOM {
+                if i == j {
+                    s.present[j] = true;
+                }
+                j += 1;
+            }
+        }
+        s
+    }
+}
+
+impl<'a> RefSet<&'a u64> {
+    pub fn contains(&self, k: &u64) -> bool {
+        let i = index_of(k);
+        let mut j = 0;
+        while j < DOM {
+            if i == j {
+                return self.present[j];
+            }
+            j += 1;
+        }
+        false
+    }
+}
+
+/// Fixed-capacity stand-in for the `Vec<Key>` inside `BulkMutationError` (storage.rs): one base
+/// pointer, symbolic length <= VCAP, derefs to a slice like the real one.
+#[derive(Clone, Debug)]
+pub struct IdVec {
+    buf: [u64; VCAP],
+    len: usize,
+}
+
+impl Default for IdVec {
+    fn default() -> Self {
+        Self::new()
+    }
+}
+
+impl IdVec {
+    pub fn new() -> Self {
+        Self { buf: [0; VCAP], len: 0 }
+    }
+
+    pub fn push(&mut self, k: u64) {
+        assert!(self.len < VCAP, "vcoll: IdVec capacity exceeded (bound too small for this run)");
+        let mut j = 0;
+        while j < VCAP {
+            if j == self.len {
+                self.buf[j] = k;
+            }
+            j += 1;
+        }
+        self.len += 1;
+    }
+}
+
+impl core::ops::Deref for IdVec {
+    type Target = [u64];
+    fn deref(&self) -> &[u64] {
+        &self.buf[..self.len]
+    }
+}
+
 // ------------------------------------------------------------------------------------------ Vec
 
 #[derive(Clone, Debug)]
